@@ -709,16 +709,34 @@ fn exercise_pattern(ctx: &mut Ctx, pat: &Pattern, names: &[String]) {
 }
 
 fn pipeline_a(doc: &[u8], script: &[ReadStep], buffered: Option<usize>, ctx: &mut Ctx) -> Outcome {
+    // in a fifth of the runs the reader itself reads another small index with the
+    // library (same thread, outer read in flight): a nested call must return too
+    let nested_at: Option<u64> = if doc.len() % 5 == 0 { Some(1 + (doc.len() % 3) as u64) } else { None };
+    let nested_hook = || -> Box<dyn FnMut()> {
+        Box::new(|| {
+            let r = ScanIndex::from_reader(&b"PKGNAME=nested-1.0\nALL_DEPENDS=x-[0-9]*:../../cat/x\n"[..]);
+            let _ = r.map(|v| v.len());
+        })
+    };
+    if nested_at.is_some() {
+        ctx.fault("nested_read_in_reader");
+    }
     let res = match buffered {
         None => {
-            let r = SimBufReader::new(doc.to_vec(), script.to_vec());
+            let mut r = SimBufReader::new(doc.to_vec(), script.to_vec());
+            if let Some(at) = nested_at {
+                r = r.with_hook(at, nested_hook());
+            }
             let log = r.log();
             let res = metered!(ctx, doc.len(), ScanIndex::from_reader(r));
             log.borrow().absorb(ctx, "fill_buf");
             res
         }
         Some(c) => {
-            let r = SimReader::new(doc.to_vec(), script.to_vec());
+            let mut r = SimReader::new(doc.to_vec(), script.to_vec());
+            if let Some(at) = nested_at {
+                r = r.with_hook(at, nested_hook());
+            }
             let log = r.log();
             let res = metered!(ctx, doc.len() + c, ScanIndex::from_reader(BufReader::with_capacity(c.max(1), r)));
             log.borrow().absorb(ctx, "fill_buf");
@@ -1174,6 +1192,8 @@ fn pipeline_d(seed: u64, ops: &[DOp], ctx: &mut Ctx) -> Outcome {
     let mut sum = Summary::new();
     let mut stream = SummaryStream::new();
     let mut d_stream_total = 0usize;
+    let mut d_kept: Vec<Summary> = Vec::new();
+    let mut d_kept_streams: Vec<SummaryStream> = Vec::new();
     for op in ops {
         match op {
             DOp::Set { var, val } => {
@@ -1196,7 +1216,16 @@ fn pipeline_d(seed: u64, ops: &[DOp], ctx: &mut Ctx) -> Outcome {
             }
             DOp::Clone { seed } => {
                 set_hash_seed(*seed);
-                sum = sum.clone();
+                // the clone and the original both stay alive from here on: half of the
+                // time the history carries on with the clone, half with the original;
+                // the stream object is cloned and kept too
+                let c = sum.clone();
+                if seed % 2 == 0 {
+                    d_kept.push(std::mem::replace(&mut sum, c));
+                } else {
+                    d_kept.push(c);
+                }
+                d_kept_streams.push(stream.clone());
                 ctx.step("clone", 0, 0);
             }
             DOp::Print => {
@@ -1248,6 +1277,25 @@ fn pipeline_d(seed: u64, ops: &[DOp], ctx: &mut Ctx) -> Outcome {
         let _ = (sum.is_completed(), sum.pkgbase(), sum.pkgversion(), sum.description_as_str());
         ep!(ctx, "Summary getters", true);
     }
+    // the objects that were cloned away earlier are still alive and still usable
+    for k in d_kept.iter_mut() {
+        k.push_depends("kept-[0-9]*");
+        k.push_description("still here");
+        k.set_comment("kept");
+        let _ = k.to_string();
+        ep!(ctx, "Summary calls on a kept clone", true);
+    }
+    sum.push_depends("after-[0-9]*");
+    sum.push_description("after the clones");
+    let _ = sum.to_string();
+    for st in d_kept_streams.iter_mut() {
+        let w = st.write(b"PKGNAME=kept-1.0\n");
+        fe(&w);
+        ep!(ctx, "SummaryStream::write on a kept clone", w.is_ok());
+        let _ = st.to_string();
+    }
+    let w = stream.write(b"\n");
+    fe(&w);
     set_hash_seed(0);
     Ok(())
 }
